@@ -38,6 +38,8 @@ class SimFS:
         self.open_files: list[SimFile] = []
         self.fail_open: dict[str, type] = {}
         self.fds: dict[int, tuple[str, int]] = {}  # descriptors from os.open: fd -> (path, flags)
+        self.fail_at: tuple[int, int, int] | None = None  # (op index, errno, prefix of pending bytes that still got written)
+        self.errors_injected = 0
 
     # ---- crash machinery ------------------------------------------------------------
     def step(self, kind: str, path: str, n: int = 0, f: "SimFile | None" = None) -> bool:
@@ -48,6 +50,17 @@ class SimFS:
         idx = self.op_counter
         self.op_counter += 1
         self.ops.append((kind, path, n))
+        if self.fail_at is not None and idx == self.fail_at[0]:
+            # an I/O error instead of a crash: the call raises OSError, the process lives on.  For calls that carry pending bytes
+            # a prefix may already have reached the file (short write on a full disk)
+            _, err, keep = self.fail_at
+            self.fail_at = None
+            if kind in ("write", "flush", "close") and f is not None and keep:
+                f._apply(min(keep, len(f.pending)))
+            if kind in ("flush", "close") and f is not None:
+                f.pending.clear()  # the buffered data is gone (CPython drops the buffer when a flush fails at close)
+            self.errors_injected += 1
+            raise (PermissionError if err == 13 else OSError)(err, _real_os.strerror(err), path)
         if self.crash_at is not None and idx == self.crash_at[0]:
             # partial effect: for ops that carry pending bytes, a prefix becomes durable
             if kind in ("write", "flush", "close") and f is not None:
